@@ -310,6 +310,7 @@ class Simulation:
                 "the process stack."
             )
         self.env.run(until=until)
+        self.monitor.collate_events()
 
     def is_finished(self):
         """
